@@ -31,7 +31,98 @@ def jobs_c02(tier):
     return [J("std", "fast"), J("std", "checked"), J("std", "dev", scale=0.05)] + levels(scale=0.25) + [J("nosimd", "checked", scale=0.25)]
 
 
+def jobs_c14(tier):
+    if tier == "quick":
+        return [J("std", "fast"), J("std", "checked")] + levels(scale=0.5) + [J("nosimd", "checked", scale=0.5)]
+    return [J("std", "fast"), J("std", "checked"), J("std", "dev", scale=0.05)] + levels(scale=0.5) + levels(profile="checked", scale=0.2) + [J("nosimd", "checked", scale=0.5)]
+
+
+def fam(config, profile, only, scale=1.0, level="host"):
+    return J(config, profile, level, scale, args={"--only": only}, tag=only.replace("<", "").replace(">", "").replace(",", "_"))
+
+
+def jobs_conf(tier):
+    # one family per property; host level, fast + checked; other back ends are C03's business
+    if tier == "quick":
+        return [J("std", "fast"), J("std", "checked", scale=0.5)]
+    return [J("std", "fast"), J("std", "checked", scale=0.5), J("std", "dev", scale=0.02)]
+
+
+def jobs_c08(tier):
+    js = []
+    for only in ["Blake", "Groestl", "Jh", "Skein"]:
+        js.append(fam("std", "fast", only))
+        js.append(fam("std", "checked", only, scale=0.5))
+    return js
+
+
+def jobs_c17(tier):
+    js = [fam("std", "fast", "counter"), fam("std", "checked", "counter")]
+    js.append(fam("std", "fast", "real-stream"))
+    return js
+
+
 PLANS = {
+    "C04": {
+        "jobs": jobs_conf,
+        "rule": "BLAKE-224/256/384/512 x message: exhaustive sweep of every length 0..=3*block+2 (all six content patterns at the "
+                "boundary residues), generated lengths up to 8 blocks biased to k*block-1/k*block/k*block+1, a few long messages; "
+                "content uniform / 00 / ff / 0x80 / counter / single bit; oracle: digest == reference BLAKE (written from the "
+                "specification); every case is non-trivial; distinct = FNV-1a of (configuration, hash, message descriptor)",
+    },
+    "C05": {
+        "jobs": jobs_conf,
+        "rule": "Skein-256/512/1024 x 19 output sizes N in {1,7,8,16,20,28,31,32,33,48,64,65,77,100,128,129,200,256,300} x message: "
+                "exhaustive length sweep 0..=3*block+2 (a rotating third of the 57 instantiations in the quick tier, all in thorough), "
+                "generated lengths up to 8 blocks with boundary bias, long messages; oracle: reference Skein 1.3 simple hash; every case "
+                "is non-trivial; distinct = FNV-1a of (configuration, hash, message descriptor)",
+    },
+    "C06": {
+        "jobs": jobs_conf,
+        "rule": "JH-224/256/384/512 x message: exhaustive length sweep 0..=194, generated lengths up to 8 blocks with boundary bias, long "
+                "messages; plus Compressor::new/input/finalize on generated arbitrary 1024-bit states and 512-bit blocks (1..3 blocks) "
+                "against the nibble-oriented reference F8; every case is non-trivial; distinct = FNV-1a of (configuration, case)",
+    },
+    "C07": {
+        "jobs": jobs_conf,
+        "rule": "Groestl-224/256/384/512 x message: exhaustive length sweep 0..=3*block+2, generated lengths up to 8 blocks with boundary "
+                "bias, long messages, and block counts 255/256/257 (quick) and 65535/65536/65537 (thorough) with 0, 5, block-9, block-8 "
+                "trailing bytes; oracle: reference Groestl; every case is non-trivial; distinct = FNV-1a of (configuration, case)",
+    },
+    "C08": {
+        "jobs": jobs_c08,
+        "rule": "17 hash types (15 of the property + Skein256<33>, Skein1024<200>) x generated histories (1..20 ops) over a set of up to 6 "
+                "live instances: update/chain(piece), clone, reset, finalize_reset (Digest), finalize_fixed_reset (FixedOutput), finalize, "
+                "new; piece lengths relative to the instance's buffer fill (block-fill+-2, k*block-fill+-2, 0, 1, <700); oracle: every "
+                "finalisation equals the one-shot digest of the bytes that instance absorbed since creation/reset and (<= 2 KiB) the "
+                "reference digest; non-trivial = an instance is finalised after >= 2 updates including a boundary-relative piece; "
+                "distinct = FNV-1a of (configuration, serialized history)",
+    },
+    "C17": {
+        "jobs": jobs_c17,
+        "rule": "hook form: 17 hash types x (real prefix 0..299 bytes in generated chunks, counter placed 0..5 blocks below m*2^e for the "
+                "boundaries the format allows - BLAKE-224/256 bits 2^32..2^63, BLAKE-384/512 bits 2^32..2^127 incl. 2^64, Groestl blocks "
+                "2^8..2^63, JH bytes 2^29..2^60, Skein bytes 2^32..2^63 - then 0..899 real bytes and finalisation); implementation and "
+                "reference model perform the same jump; oracle: counter read-back equals the true amount and digests are equal; real "
+                "form: streams of 1-2 MiB (quick) / 512 MiB BLAKE, 4 GiB Skein, 2^16+ blocks Groestl (thorough) without the hook; "
+                "non-trivial = the absorbed data crosses the targeted boundary; distinct = FNV-1a of (configuration, case)",
+    },
+    "C14": {
+        "jobs": jobs_c14,
+        "rule": "generated (key, 8/12-byte nonce, 64-bit counter from a mixture with the low word within 8 of 2^32 under any high word, "
+                "k*2^32-d, 2^64-1-d, stream id, double rounds 0..=10, 1..3 repetitions); oracle: refill4 bytes == four refills from a clone, "
+                "states equal, every block == reference block(key, counter, stream id, 2*drounds), counter advanced by 1/4 with carry into "
+                "the high word only, stream id unchanged; run on every emulated host level and the portable back end; every case is "
+                "non-trivial; distinct = FNV-1a of (configuration, serialized case)",
+    },
+    "C15": {
+        "jobs": jobs_c14,
+        "rule": "generated sequences of set_stream_param(0|1, value) / refill / refill4 / get / compare-with-fresh-state against a "
+                "(counter, stream id) model and the reference block function; generated pairs of states that are identical, differ in "
+                "exactly one of the 12 key/counter/stream words (each position forced), differ only by refills, or are unrelated, for the "
+                "stream32_eq/stream64_eq/== predicates in both argument orders; non-trivial = sequence with >= 1 set, pair differing in "
+                "exactly one word or by refills only; distinct = FNV-1a of (configuration, serialized case)",
+    },
     "C01": {
         "jobs": jobs_c01,
         "rule": "generated (variant, key, nonce, preceding partial read, byte position from a mixture of small / uniform / "
